@@ -104,6 +104,30 @@ func (p *objectWalker) walkAllRefs() error {
 	return err
 }
 
+// walkIndex marks the blobs staged in the index as seen. Staged content that
+// was never committed (or whose commit is no longer referenced) is reachable
+// from nowhere else, and git treats the index as a root for prune and repack.
+func (p *objectWalker) walkIndex() error {
+	idx, err := p.Storer.Index()
+	if err != nil {
+		return err
+	}
+	for _, e := range idx.Entries {
+		if e.Mode == filemode.Submodule || p.isSeen(e.Hash) {
+			continue
+		}
+		// Only what is stored locally can be kept or written out.
+		if _, err := p.Storer.EncodedObjectSize(e.Hash); err != nil {
+			if errors.Is(err, plumbing.ErrObjectNotFound) {
+				continue
+			}
+			return err
+		}
+		p.add(e.Hash)
+	}
+	return nil
+}
+
 func (p *objectWalker) isSeen(hash plumbing.Hash) bool {
 	_, seen := p.seen[hash]
 	return seen
